@@ -90,6 +90,11 @@ def run(chk):
         inputs.append(b"function main() -> void { int a = 0; a = " + b"a = " * d + b"1; }")
         inputs.append(b"function main() -> void { int[] v = {0}; int a = 0; v[0] = " + b"a = " * d + b"1; }")
         inputs.append(b"function f(int p) -> int { return p; }\nfunction main() -> void { int a = 0; echo(f(" + b"a = " * d + b"1)); }")
+    # imports whose path components are absurd for a file system (too long, dots only, empty): the loader's probe must end in a diagnostic
+    for comp in ("a" * 300, "b" * 5000, "x" * 256, "y" * 255):
+        inputs.append(("import %s;\nfunction main() -> void { }" % comp).encode())
+        inputs.append(("import pkg.%s.Thing;\nfunction main() -> void { }" % comp).encode())
+        inputs.append(("import %s.*;\nfunction main() -> void { }" % comp).encode())
     # numeric extremes in every position where the front end converts digits itself (index guards, array sizes, @shots, literals)
     NUMS = ["0", "7", "2147483647", "2147483648", "4294967295", "4294967296", "9223372036854775807", "9223372036854775808",
             "18446744073709551616", "9" * 20, "9" * 25, "1" + "0" * 40, "9" * 400, "00000000000000000000001", "0" * 30]
